@@ -129,7 +129,7 @@ fn pair_bits(c: &PairCase) -> (Bits, Bits) {
     }
     (a, b)
 }
-fn check_pair_case(c: &PairCase, ctx: &mut Ctx) -> R {
+pub fn check_pair_case(c: &PairCase, ctx: &mut Ctx) -> R {
     let (a, b) = pair_bits(c);
     if a.len() % 8 != 0 && b.len() % 8 != 0 && a.len() > 8 {
         ctx.class("both_unaligned");
@@ -256,7 +256,7 @@ fn set_from_case(c: &SetCase) -> (Vec<Bits>, Bits, Vec<Bits>) {
     }
     (set, prefix, probes)
 }
-fn check_set_case(c: &SetCase, ctx: &mut Ctx) -> R {
+pub fn check_set_case(c: &SetCase, ctx: &mut Ctx) -> R {
     let (set, prefix, probes) = set_from_case(c);
     let equal_len = set.iter().all(|b| b.len() == set[0].len());
     if equal_len {
@@ -271,6 +271,22 @@ fn check_set_case(c: &SetCase, ctx: &mut Ctx) -> R {
         ctx.sample(c);
     }
     check_set(&set, &prefix, &probes)
+}
+
+pub fn pair_case_strategy() -> impl Strategy<Value = PairCase> {
+    (pat_strategy(), boundary_len(), boundary_len(), boundary_len(), pat_strategy()).prop_map(|(pa, len_a, shared, len_b, tail)| PairCase { pa, len_a, shared, len_b, tail })
+}
+pub fn set_case_strategy() -> impl Strategy<Value = SetCase> {
+    (
+        pat_strategy(),
+        boundary_len(),
+        prop_oneof![2 => Just(256u16), 1 => boundary_len()],
+        proptest::collection::vec(pat_strategy(), 1..12),
+        prop_oneof![3 => Just(vec![]), 1 => proptest::collection::vec(any::<u16>(), 1..4)],
+        any::<u16>(),
+        proptest::collection::vec((any::<u16>(), any::<u16>()), 0..4),
+    )
+        .prop_map(|(common, common_len, len, tails, mixed, cut, probes)| SetCase { common, common_len, len, tails, mixed, cut, probes })
 }
 
 pub fn run(eng: &mut Engine) {
@@ -387,7 +403,7 @@ pub fn run(eng: &mut Engine) {
         "long_pairs",
         "generated label pairs of every length 0..256 (lengths concentrated at 8k-1/8k/8k+1, 0,1,255,256) with all-ones / all-zeros / alternating / single-bit / random patterns sharing a prefix of generated length; all pairwise operations both ways + get_prefix at every length; non-trivial = both labels longer than 8 bits sharing >=1 bit; distinct by bit strings",
         eng.tier.pick(2_000_000, 20_000_000),
-        || (pat_strategy(), boundary_len(), boundary_len(), boundary_len(), pat_strategy()).prop_map(|(pa, len_a, shared, len_b, tail)| PairCase { pa, len_a, shared, len_b, tail }),
+        pair_case_strategy,
         check_pair_case,
     );
     // (c2) generated sets
@@ -395,18 +411,8 @@ pub fn run(eng: &mut Engine) {
         "sets",
         "generated sets of up to 12 labels (equal length incl. 256 bits => BinarySearchable vs Unsorted; mixed lengths => Unsorted vs reference) sharing a generated common prefix; partition around a generated common prefix, set lcp, contains_prefix probes (prefixes of members and their last-bit flips); non-trivial = equal-length set of >=3 labels with non-empty partition prefix",
         eng.tier.pick(500_000, 6_000_000),
-        || {
-            (
-                pat_strategy(),
-                boundary_len(),
-                prop_oneof![2 => Just(256u16), 1 => boundary_len()],
-                proptest::collection::vec(pat_strategy(), 1..12),
-                prop_oneof![3 => Just(vec![]), 1 => proptest::collection::vec(any::<u16>(), 1..4)],
-                any::<u16>(),
-                proptest::collection::vec((any::<u16>(), any::<u16>()), 0..4),
-            )
-                .prop_map(|(common, common_len, len, tails, mixed, cut, probes)| SetCase { common, common_len, len, tails, mixed, cut, probes })
-        },
+        set_case_strategy,
         check_set_case,
     );
+    eng.fuzz_part_from_env("fuzz_c17");
 }
